@@ -6,6 +6,7 @@ import (
 	"fmt"
 	"hash"
 	"hash/fnv"
+	"os"
 	"runtime"
 	"runtime/metrics"
 	"sort"
@@ -555,5 +556,38 @@ func (k *K) GateSource(add func(Action)) {
 func (k *K) ReleaseAll() {
 	for _, g := range k.Parked() {
 		k.Release(g)
+	}
+}
+
+var lyTrace = os.Getenv("VERIF_LYTRACE") != ""
+
+// LockYield returns a hook for the yield points that seam R8 puts before mutex acquisitions: it
+// parks the calling goroutine at a few acquisitions chosen by the schedule tape (by their
+// ordinal number in the run), so that other goroutines run between two critical sections of the
+// parked one. The parked goroutine is released like any other gate.
+func (k *K) LockYield() func(site string) {
+	targets := map[int]bool{}
+	if k.S != nil {
+		n := k.S.Pick([]int{3, 3, 2, 1, 1})
+		span := []int{40, 150, 600, 2500}[k.S.Draw(4)]
+		for i := 0; i < n; i++ {
+			targets[k.S.Draw(span)] = true
+		}
+	}
+	var mu sync.Mutex
+	c := 0
+	return func(site string) {
+		mu.Lock()
+		i := c
+		c++
+		hit := targets[i]
+		mu.Unlock()
+		if lyTrace {
+			k.Logf("DBG lockyield #%d %s hit=%v", i, site, hit)
+		}
+		if hit && !k.Draining {
+			k.Probe("parked_before_lock")
+			k.Park(fmt.Sprintf("%s#%d", site, i))
+		}
 	}
 }
